@@ -536,7 +536,18 @@ class Component(CaselessDict):
         subs = ', '.join(str(it) for it in self.subcomponents)
         return f"{self.name or type(self).__name__}({dict(self)}{', ' + subs if subs else ''})"
 
+    def copy(self):
+        """Copy the properties; a generic component keeps its name."""
+        new = super().copy()
+        if new.name != self.name:
+            new.name = self.name
+        return new
+
     def __eq__(self, other):
+        if not isinstance(other, Component):
+            return NotImplemented
+        if self.name != other.name:
+            return False
         if len(self.subcomponents) != len(other.subcomponents):
             return False
 
@@ -549,8 +560,14 @@ class Component(CaselessDict):
         # are the subcomponent types hashable, so  we cant put them in a set to
         # check for set equivalence. We have to iterate over the subcomponents
         # and look for each of them in the list.
+        # Each of our subcomponents must be matched by a different one of theirs.
+        remaining = list(other.subcomponents)
         for subcomponent in self.subcomponents:
-            if subcomponent not in other.subcomponents:
+            for i, candidate in enumerate(remaining):
+                if subcomponent == candidate:
+                    del remaining[i]
+                    break
+            else:
                 return False
 
         return True
